@@ -91,8 +91,8 @@ bool_t utilOnExit(void (*fn)())
 		mtMtxUnlock(_mtx);
 		return FALSE;
 	}
-	ASSERT(blobSize(_fns) % sizeof(util_onexit_t) == 0);
 	_fns = (util_onexit_t*)b;
+	ASSERT(blobSize(_fns) % sizeof(util_onexit_t) == 0);
 	// добавить функцию
 	_fns[blobSize(_fns) / sizeof(util_onexit_t) - 1] = fn;
 	mtMtxUnlock(_mtx);
